@@ -111,7 +111,12 @@ func gen(t *rapid.T) Script {
 			lines := rapid.IntRange(1, 3).Draw(t, "lines")
 			for l := 0; l < lines; l++ {
 				k++
-				r.Spoofs = append(r.Spoofs, Spoof{Name: caseVariant(t, n), Value: fmt.Sprintf("spoof-%d", k)})
+				v := fmt.Sprintf("spoof-%d", k)
+				// an empty field value is a value too (e.g. an empty first line followed by a real one)
+				if rapid.IntRange(0, 4).Draw(t, "emptyval") == 0 {
+					v = ""
+				}
+				r.Spoofs = append(r.Spoofs, Spoof{Name: caseVariant(t, n), Value: v})
 			}
 		}
 		if s.Proto == "h2" && rapid.Bool().Draw(t, "cont") {
